@@ -94,6 +94,27 @@ func makeInfo(fi FInfo) xpath.CustomFunctionInfo {
 		}
 	case "arg":
 		fn = func(a []xpath.Datum) xpath.Datum { return a[0] }
+	case "partial":
+		// BadArg of XPathFuncs.tla: fails on the empty string / NaN / false, echoes every other operand
+		fn = func(a []xpath.Datum) xpath.Datum {
+			if len(a) == 0 {
+				panic("custom function failed")
+			}
+			bad := true
+			switch fi.Args[0] {
+			case "s":
+				bad = a[0].Literal("partial") == ""
+			case "n":
+				n := a[0].Number("partial")
+				bad = n != n
+			case "b":
+				bad = !a[0].Boolean("partial")
+			}
+			if bad {
+				panic("custom function failed on this operand")
+			}
+			return a[0]
+		}
 	default:
 		fn = func([]xpath.Datum) xpath.Datum { panic("custom function failed") }
 	}
